@@ -140,7 +140,6 @@ class SchemaValidator:
                 or _is_valid_name(type_.name)
             ):
                 self.add_error('Invalid type name "%s"' % type_.name)
-                continue
 
             if isinstance(type_, ObjectType):
                 self.validate_fields(type_)
@@ -415,7 +414,6 @@ class SchemaValidator:
                     'Interface field "%s" expects type "%s" but "%s" is type "%s"'
                     % (interface_path, field.type, obj_path, object_field.type)
                 )
-                continue
 
             for arg in field.arguments:
                 object_arg = object_field.argument_map.get(arg.name, None)
